@@ -50,7 +50,7 @@ pub const ACTIONS: [&str; 16] = [
     "replace_infix_op_in_use",
     "replace_postfix_op_in_use",
 ];
-pub const POSITIONS: [&str; 9] = [
+pub const POSITIONS: [&str; 11] = [
     "root",
     "nested_operand",
     "conditional_then",
@@ -66,6 +66,12 @@ pub const POSITIONS: [&str; 9] = [
     "list_element_before_the_name_it_writes",
     // `pk(<handler>, name, ..)`: the same for call arguments that are all plain names
     "call_argument_before_the_name_it_writes",
+    // `t = 7 ; t = <handler>` where the handler rewrites t (to 100) and returns 7: the assignment
+    // must still be made (t == 7 afterwards), although the value assigned equals the one t held before
+    "rhs_of_plain_assignment_that_restores_the_old_value",
+    // `{1 : [hw, hz, y], <handler> : 2}` where the handler writes hw / hz: entries are evaluated pair by
+    // pair, so the FIRST value does not see the write made by the SECOND key
+    "map_key_after_a_value_that_reads_the_name_it_writes",
 ];
 
 /// kinds that are context functions (any handler kind may lock / evaluate on the evaluating
@@ -88,7 +94,7 @@ pub fn matrix() -> Vec<(usize, usize, usize)> {
                 if p == 6 && (!(a == 7 || a == 8) || k >= 6) {
                     continue;
                 }
-                if (p == 7 || p == 8) && (!(a == 7 || a == 8) || k >= 6) {
+                if (p == 7 || p == 8 || p == 9 || p == 10) && (!(a == 7 || a == 8) || k >= 6) {
                     continue;
                 }
                 v.push((k, a, p));
@@ -238,6 +244,7 @@ fn at_position(p: usize, node: Expr) -> Expr {
         2 => tern(lit_b(true), node, lit_i(0)),
         3 => tern(lit_b(false), lit_i(0), node),
         7 => Expr::List(vec![node, rf("hw"), rf("hz"), rf("y")]),
+        10 => Expr::Map(vec![(lit_i(1), Expr::List(vec![rf("hw"), rf("hz"), rf("y")])), (node, lit_i(2))]),
         8 => call("pk", vec![node, rf("hw"), rf("hz"), rf("y")]),
         // nf(<node>): the callee is registered (4) or replaced (5) while its argument is evaluated
         _ => call("nf", vec![node]),
@@ -253,7 +260,7 @@ pub fn matrix_case(k: usize, a: usize, p: usize) -> Case {
         let d = marker(&mut case, HKind::CtxFunc);
         case.slots[0].funcs.push((decoy.into(), d));
     }
-    let (ops, later, ret) = action(&mut case, a, if p == 6 { Some("t") } else { None });
+    let (ops, later, ret) = action(&mut case, a, if p == 6 || p == 9 { Some("t") } else { None });
     // a DumpSlot / constant return for the kinds whose value is used arithmetically
     let ret = if k == 7 && matches!(ret, Ret::DumpSlot(_)) { Ret::Const(Val::int(7)) } else { ret };
     // after a delegating handler failed, a later statement must not run
@@ -290,6 +297,8 @@ pub fn matrix_case(k: usize, a: usize, p: usize) -> Case {
     };
     let mut stmts = if let Some(u) = in_use {
         vec![bin("=", rf("y"), lit_i(5)), bin("=", rf("r"), Expr::List(vec![u.clone(), at_position(p, node), u]))]
+    } else if p == 9 {
+        vec![bin("=", rf("y"), lit_i(5)), bin("=", rf("t"), lit_i(7)), bin("=", rf("t"), node), bin("=", rf("r"), rf("t"))]
     } else if p == 6 {
         vec![bin("=", rf("y"), lit_i(5)), bin("=", rf("t"), lit_i(10)), bin("+=", rf("t"), node), bin("=", rf("r"), rf("t"))]
     } else {
@@ -494,7 +503,7 @@ impl Prop for C14 {
             rule: "exhaustive part: every existing cell of handler kind {global function, prefix, infix, postfix, context function by call, context function by \
                    bare name, user-registered SETTER operator, context function as the target of a compound assignment} x re-entrant action {parse_expression, execute on a new context, register_function/prefix/infix/postfix, and for context \
                    functions: lock the evaluating context's handle and read / write it / evaluate on a Context sharing it / dump it} x program position {root, \
-                   nested operand, then-branch, else-branch, and for register_function: as an argument of the very function it registers / replaces} = 560 cases, all run on every invocation; sampled part: seeded chains of 2..4 re-entrant \
+                   nested operand, then-branch, else-branch, and for register_function: as an argument of the very function it registers / replaces} = 584 cases, all run on every invocation; sampled part: seeded chains of 2..4 re-entrant \
                    handlers each evaluating a program that invokes the next, in a third of them with a bystander thread that registers and evaluates concurrently \
                    (seeded schedules). Fresh simulated process per case. evaluations = simulated \
                    executions; distinct_nontrivial = distinct cases in which at least one re-entrant action was actually performed inside a handler",
